@@ -63,9 +63,9 @@ Running == phase = "Running" /\ Len(hist) < MaxHist
 
 ChangeKind(n) == CASE n = 0 -> "change0" [] n = 1 -> "change1" [] OTHER -> "change2"
 
-\* the version is the client's business: usually growing, but a document that is closed and opened again starts at 1
-\* again (the server does not implement didClose) - whatever the number, the text of the notification is the document
-Versions == IF "lowver" \in Kinds THEN {Step, 1} ELSE {Step}
+\* the version is the client's business: usually growing, but a document that is closed and opened again starts low
+\* again (0 here: lower than every version seen before, under either spelling of the document's URI) (the server does not implement didClose) - whatever the number, the text of the notification is the document
+Versions == IF "lowver" \in Kinds THEN {Step, 0} ELSE {Step}
 DidOpen(u, t) ==
   /\ Running /\ "open" \in Kinds
   /\ SetDoc(u, t)
